@@ -53,7 +53,7 @@ func drawC15(rt *rapid.T) interface{} {
 	nc := rapid.IntRange(1, 5).Draw(rt, "ncallers")
 	maxOps := 5
 	if nc == 1 {
-		maxOps = 30
+		maxOps = hx.Pick(30, 80)
 	}
 	ver := 1
 	for i := 0; i < nc; i++ {
@@ -479,6 +479,7 @@ func TestC15(t *testing.T) {
 		Stubs:       []string{"backing store (harness map with per-key busy markers and a fault plan per callback kind)", "sync (simsync)", "context.Context (hx.SimCtx)", "goroutine scheduling and select choice (simrt)"},
 		Rule: "scenario = worker count {1,2,3} x queue depth x cache facade (map | LRU capacity 1-3) x 1-5 callers x get/add/update/delete/update-or-add/upsert-then-load/upsert-then-renew over 1-4 keys (incl. negative and MinInt hashes) x per-callback failure plan (load/add/update/upsert/delete fail at drawn invocation numbers) x context cancellation x scheduler knobs/tape; " +
 			"1 caller with up to 30 ops = sequential fault-sequence statement with per-operation audits; non-trivial = >=2 tasks and >=1 switch (or >=3 ops); distinct = distinct event-log hash",
+		Probes:      []string{"op-observed-accepted", "audit-cached", "audit-uncached", "add-on-cached-key", "refused-full-or-closed", "store-fault-load", "store-fault-add", "store-fault-update", "store-fault-upsert", "store-fault-delete"},
 		Assumptions: []string{"store callbacks fail atomically (no partial effect)", "coherence is audited when no operation on the key is in flight (after each operation of single-caller runs; at the end of concurrent runs once the workers are idle)"},
 	})
 }
